@@ -237,8 +237,10 @@ def audit_axioms(prop_id, names):
     return res
 
 
-def build_harness(family):
+def build_harness(family, checked=False):
     """The in-process implementation driver `impl_<family>` against the working tree of REPO.
+    `checked=True`: a second build of the same driver with the arithmetic of a plain `cargo build` (overflow checks and
+    debug assertions ON) into target-harness-checked: inputs that only panic there are panics of the default build.
 
     Normally REPO is /repo and the crate in /verif/harness is built as it is.  When FERROUS_REPO points
     elsewhere (a scratch worktree with a seeded change, so that /repo itself stays untouched while other
@@ -262,8 +264,11 @@ def build_harness(family):
         lock_dst = os.path.join(src_dir, "Cargo.lock")
         if not os.path.exists(lock_dst):
             shutil.copy(lock_src, lock_dst)
-        rc, out = run(["cargo", "build", "--offline", "--quiet", "--bin", "impl_" + family,
-                       "--target-dir", os.path.join(CACHE, "target-harness")], cwd=src_dir)
+        argv = ["cargo", "build", "--offline", "--quiet", "--bin", "impl_" + family,
+                "--target-dir", os.path.join(CACHE, "target-harness-checked" if checked else "target-harness")]
+        if checked:
+            argv += ["--config", "profile.dev.overflow-checks=true", "--config", "profile.dev.debug-assertions=true"]
+        rc, out = run(argv, cwd=src_dir)
     if rc != 0:
         raise InternalError("harness does not build against %s:\n%s" % (REPO, out[-4000:]))
 
